@@ -158,7 +158,7 @@ func init() {
 			return "bad-op"
 		},
 		Gen: func(w *bufio.Writer, seed int64, tier string) {
-			r := newRng(seed)
+			r := newRngMixed(seed)
 			reps := 1
 			if tier == "thorough" {
 				reps = 25
